@@ -731,6 +731,18 @@ def r155_vertex_merging(ctx, res):
 
     how = merges(v)
     if how is None:
+        # a helper of the package that returns the merged list (`distinct_points(points)`): its returns are examined the same way
+        for c_ in [c for c in ast.walk(v) if isinstance(c, ast.Call) and isinstance(c.func, ast.Name)]:
+            b_ = fi.resolve(c_.func.id)
+            if b_ is not None and b_.kind == "func":
+                h = b_.target
+                for r_ in walk_local(h.node):
+                    if isinstance(r_, ast.Return) and r_.value is not None:
+                        hv = expand_locals(h.node, r_.value, h.params)
+                        m_ = merges(hv)
+                        if m_:
+                            how = "%s in %s" % (m_, h.short)
+    if how is None:
         # a list filled in a loop behind a membership filter:  if p not in out: out.append(p)
         for nm in {x.id for x in ast.walk(v) if isinstance(x, ast.Name)}:
             for n_ in walk_local(fi.node):
